@@ -57,7 +57,7 @@ class _V:
 
 def _dep(V):
     def lin(x, a=0.5, b=0.1):
-        return a + b * x
+        return a + b * np.abs(x)      # positive for every conditioning value (Normal / von Mises variables can be negative)
     return V["Dep"].DependenceFunction(lin, bounds=[(None, None), (None, None)])
 
 
@@ -295,6 +295,7 @@ def run_real(spec, seed=0):
     descs = spec["descs"]
     n = len(descs)
     data = data_matrix(seed)
+    np.random.seed((seed * 7919 + 13) % 2 ** 32)     # contours that draw their own sample use numpy's global generator
     with warnings.catch_warnings():
         warnings.simplefilter("ignore")
         if spec.get("predefined") is not None:
@@ -1042,12 +1043,17 @@ def m_hdc_limits_length(spec, i, v):
 
 
 def m_hdc_deltas_length(spec, i, v):
+    """deltas of every wrong length (0 .. n_dim-1 and n_dim+1), given as list, tuple and ndarray"""
     if i != 0:
         return None
     c = _hdc(spec, v)
     n = len(spec["descs"])
-    c["deltas"] = [[0.6] * (n + 1), [0.6] * (n - 1), []][v % 3]
-    return {"cls": "hdc_deltas_wrong_length", "pos": 0, "phase": "PhContour"}
+    lens = list(range(n)) + [n + 1]
+    L = lens[v % 5 % len(lens)]
+    c["deltas"] = [0.6 if n <= 2 else 1.0] * L
+    c["deltas_as"] = ["list", "tuple", "ndarray"][(v // 5) % 3]
+    return {"cls": "hdc_deltas_wrong_length", "pos": 0, "phase": "PhContour",
+            "detail": "deltas = %s of length %d for a %d-dimensional model" % (c["deltas_as"], L, n)}
 
 
 def m_hdc_limit_tuple(spec, i, v):
@@ -1160,7 +1166,7 @@ INJ_BY_NAME = {f.__name__: f for f in ALL_INJ + ORACLE_INJ}
 NEEDS_FIT = set(f.__name__ for f in FIT_INJ) | {"m_unknown_reference", "m_reference_type", "m_too_few_intervals",
                                                  "m_data_not_2d", "m_data_3d", "m_slicer_size"}
 # number of variants of the injected value (default 3)
-NVARIANTS = {"m_hdc_bad_value": 7, "m_data_not_2d": 2, "m_data_3d": 1, "m_slicer_size": 9, "m_nonfinite_point": 30, "m_not_2d": 6, "m_unknown_method": 6, "m_fit_length": 4, "m_missing_method": 4,
+NVARIANTS = {"m_hdc_deltas_length": 15, "m_hdc_bad_value": 7, "m_data_not_2d": 2, "m_data_3d": 1, "m_slicer_size": 9, "m_nonfinite_point": 30, "m_not_2d": 6, "m_unknown_method": 6, "m_fit_length": 4, "m_missing_method": 4,
              "m_unknown_weights": 6, "m_iform_model_type": 3}
 
 
@@ -1244,7 +1250,7 @@ def oracle(spec, real):
                     "a well-formed session raises %s in %s: %s" % (real["exc"], real["site"], real.get("msg", "")))
         return None
     first = [m for m in spec["mal"] if m["phase"] == exp]
-    sig_cls = sorted({m["cls"] for m in first})[0]
+    sig_cls = first[-1]["cls"]        # the malformation applied last survives when two touch the same object
     grp = [m["group"] for m in first if m["cls"] == sig_cls][0]
     if real is None:
         return ({"clause": "accepted", "group": grp, "malformation": sig_cls, "supplied_in": exp},
@@ -1352,6 +1358,7 @@ def _resolve_slicer(u, seed):
 def run_unit(u, seed=0):
     V = _V.get()
     data = data_matrix(seed)
+    np.random.seed((seed * 7919 + 17) % 2 ** 32)
     with warnings.catch_warnings():
         warnings.simplefilter("ignore")
         try:
